@@ -138,6 +138,25 @@ def segmentsEval (args : List String) : String :=
 
 def segments : Family := { name := "segments", gen := segmentsGen, eval := segmentsEval, fixed := 108 }
 
+/-! ## seggaps: the same relations with one segment file missing (REVIEW C19 §5: gaps and a missing base file were
+never run against the code).  PostgreSQL itself stops at the first missing segment; what the tool does behind a gap
+(ListSegments stops, `C19_list_gap`; with the base file missing `base.1` is listed as entry 0) is compared with the
+model only: the spec is silent. -/
+
+def seggapsGen (seed idx size : Nat) : Case :=
+  let c := segmentsGen seed idx size
+  match c.args with
+  | forced :: optKind :: multi :: blk :: files =>
+    let k := (idx / 3 * 7 + idx) % files.length
+    let k := if idx % 3 == 0 then 0 else k          -- every third case: the base file itself is missing
+    let files' := (List.range files.length).map fun i => if i == k then "~" else files.getD i "~"
+    let args := forced :: optKind :: multi :: blk :: files'
+    { tags := [s!"segs={files.length}", if k == 0 then "gap=base" else if k + 1 == files.length then "gap=last" else "gap=middle", "nt"],
+      model := segmentsEval args, spec := "-", args }
+  | _ => c
+
+def seggaps : Family := { name := "seggaps", gen := seggapsGen, eval := segmentsEval, fixed := 0 }
+
 /-! ## segpath -/
 
 def showG2S : M (Int × Int) → String := showM fun (a, b) => s!"{a},{b}"
